@@ -185,7 +185,7 @@ func (self* polyBestFit) predict(d Kilometres,sd epochDays) (epochDays,error) {
 
 		// Get prediction for current day ...
 		dd,err := self.predictY(cd)
-		if err == nil {
+		if err == nil && dd > 0 {
 			r -= Kilometres(dd)
 		} else {
 		   // ... switch to just using the last share reported
